@@ -488,60 +488,127 @@ def is_default_index(t):
     return list(idx) == list(range(len(idx))) and all(type(x) is int for x in idx.tolist())
 
 
-def eval_pair(case, out, ops, pend, model_ok, record=True):
-    """builds both objects, asks the implementation (both orders), applies the oracle, queues model ops"""
+def apply_edit(a, b, edit):
+    """one in-place header edit through the public setters of the Table facade (no new Table object)"""
+    t = a if edit["on"] == "a" else b
+    op = edit["op"]
+    if op == "name":
+        t.metadata.name = edit["value"]
+    elif op == "dests":
+        t.metadata.destinations = set(edit["value"])
+    elif op == "unit_proxy":
+        t[edit["col"]].unit = edit["value"]                 # Column.unit setter
+    elif op == "units_setter":
+        t.units = {edit["col"]: edit["value"]}              # Table.units setter
+    else:
+        raise InfraError("unknown edit " + op)
+
+
+def judge(a, b, case, step, expected, out, ops, pend, model_ok):
+    """asks the implementation about the objects as they are now (both orders, and (a, a)), applies the oracle
+    computed from their current public header and contents, queues the model ops on the current observation"""
     from pdtable import Table
+    mut = case.get("mutation", "random")
+    where = "" if step == 0 else f" [after in-place edit {step}: {case['edits'][step - 1]['op']}]"
+    fcase = case if step == 0 else dict(case, step=step)
     with warnings.catch_warnings():
         warnings.simplefilter("ignore")
-        a = build(case["a"])
-        b = build(case["b"], ctx=(a, case["a"]))
         try:
             ab = a.equals(b)
             ba = b.equals(a) if isinstance(b, Table) else None
             aa = a.equals(a)
         except Exception as e:  # equals promises a verdict, never an exception
-            out.fail("Table.equals raised", case, repr(e), None, key="raised:" + type(e).__name__)
-            return
-    mut = case.get("mutation", "random")
-    out.count("mutation:" + mut)
-    out.count(f"verdict:{ab}" + (":" + mut if mut.startswith("random") else ""))
-    if record:
-        out.case(case, nontrivial=isinstance(b, Table) and len(case["a"]["cols"]) > 0)
-    else:
-        out.evaluations += 1
+            out.fail("Table.equals raised" + where, fcase, repr(e), None, key="raised:" + type(e).__name__)
+            return None
     if type(ab) is not bool or (ba is not None and type(ba) is not bool):
-        out.fail("equals did not return a bool", case, [repr(ab), repr(ba)], None, key="not-bool")
-        return
+        out.fail("equals did not return a bool" + where, fcase, [repr(ab), repr(ba)], None, key="not-bool")
+        return ab
     same_class = isinstance(b, Table) and type(a) is type(b)
     if not isinstance(b, Table):
         if ab is not False:
-            out.fail(f"comparison with a non-Table ({type(b).__name__}) is not False", case, ab, False,
+            out.fail(f"comparison with a non-Table ({type(b).__name__}) is not False", fcase, ab, False,
                      key="non_table:" + case["b"].get("nt", "?"))
     elif same_class:
         if not aa:
-            out.fail("equals is not reflexive", case, aa, True, key="reflexive")
+            out.fail("equals is not reflexive" + where, fcase, aa, True, key="reflexive")
         if ab != ba:
-            out.fail("equals is not symmetric", case, [ab, ba], None, key="symmetric")
+            out.fail("equals is not symmetric" + where, fcase, [ab, ba], None, key="symmetric")
         if is_default_index(a) and is_default_index(b):
             exp = ref_equal(a, b)
-            if ab != exp:
-                out.fail("equals differs from 'same header, same number of rows, pairwise equal cells'",
-                         case, ab, exp, key="iff:" + mut + ":" + str(exp))
-            byc = case.get("expected")
-            if byc is not None and ab != byc:
-                out.fail(f"equals gives {ab} for the single-aspect mutation '{mut}'", case, ab, byc,
+            if ab != exp or ba != exp:
+                out.fail("equals differs from 'same header, same number of rows, pairwise equal cells'" + where,
+                         fcase, [ab, ba], exp, key="iff:" + mut + ":" + str(exp))
+            if expected is not None and ab != expected:
+                out.fail(f"equals gives {ab} for the single-aspect mutation '{mut}'" + where, fcase, ab, expected,
                          key="mutation:" + mut)
-            if byc is not None and exp != byc:
+            if expected is not None and exp != expected:
                 out.notes.append(f"harness: reference and construction disagree on {mut} index {case.get('index')}")
     if model_ok:
         oa, ob = observe(a), observe(b)
         ops.append({"op": "equals", "self": oa, "other": ob})
-        pend.append(("equals(a,b)", case, ab))
+        pend.append(("equals(a,b)" + where, fcase, ab))
         ops.append({"op": "equals", "self": oa, "other": oa})
-        pend.append(("equals(a,a)", case, aa))
+        pend.append(("equals(a,a)" + where, fcase, aa))
         if ba is not None:
             ops.append({"op": "equals", "self": ob, "other": oa})
-            pend.append(("equals(b,a)", case, ba))
+            pend.append(("equals(b,a)" + where, fcase, ba))
+    return ab
+
+
+def eval_pair(case, out, ops, pend, model_ok, record=True):
+    """builds both objects and judges them; a history case (`edits`) then edits one of the two objects in place,
+    step by step, judging the same objects again after every edit"""
+    from pdtable import Table
+    with warnings.catch_warnings():
+        warnings.simplefilter("ignore")
+        a = build(case["a"])
+        b = build(case["b"], ctx=(a, case["a"]))
+    mut = case.get("mutation", "random")
+    out.count("mutation:" + mut)
+    if record:
+        out.case(case, nontrivial=isinstance(b, Table) and len(case["a"]["cols"]) > 0)
+    else:
+        out.evaluations += 1
+    ab = judge(a, b, case, 0, case.get("expected"), out, ops, pend, model_ok)
+    out.count(f"verdict:{ab}" + (":" + mut if mut.startswith("random") else ""))
+    for k, edit in enumerate(case.get("edits", []), 1):
+        with warnings.catch_warnings():
+            warnings.simplefilter("ignore")
+            apply_edit(a, b, edit)
+        out.evaluations += 1
+        r = judge(a, b, case, k, edit.get("expected"), out, ops, pend, model_ok)
+        out.count(f"history_step:{edit['op']}:{r}")
+
+
+def gen_history(rng, base):
+    """(a, b, expected at step 0, edits): a pair that is compared, then one header aspect of one of the two
+    objects is changed in place (making them differ / agree), compared, changed back, compared"""
+    num = [c for c in base["cols"] if c["kind"] in ("int", "float", "datetime", "Int64", "Float64")]
+    op = rng.choice(["name", "dests"] + (["unit_proxy", "units_setter", "unit_proxy", "units_setter"] if num else []))
+    on = rng.choice(["a", "b"])
+    a, b = copy.deepcopy(base), copy.deepcopy(base)
+    side = a if on == "a" else b
+    edit = {"on": on, "op": op}
+    if op == "name":
+        old, new = base["name"], rng.choice([x for x in NAMES + ["other"] if x != base["name"]])
+    elif op == "dests":
+        old, new = list(base["dests"]), list(rng.choice([d for d in DESTS + [["q"]] if set(d) != set(base["dests"])]))
+    else:
+        c = rng.choice(num)
+        edit["col"] = c["name"]
+        old, new = c["unit"], rng.choice([u for u in NUM_UNITS + ["km"] if u != c["unit"]])
+    if rng.random() < 0.6:
+        first, seq = True, [(new, False), (old, True)]
+    else:
+        # the object starts out differing in that aspect; the edit removes the difference, the next restores it
+        first, seq = False, [(old, True), (new, False)]
+        if op == "name":
+            side["name"] = new
+        elif op == "dests":
+            side["dests"] = new
+        else:
+            [x for x in side["cols"] if x["name"] == edit["col"]][0]["unit"] = new
+    return a, b, first, [dict(edit, value=v, expected=e) for v, e in seq]
 
 
 def cases(rng, tier, seed):
@@ -554,6 +621,12 @@ def cases(rng, tier, seed):
             if m is None:
                 continue
             yield {"seed": seed, "index": idx, "mutation": kind, "expected": exp, "a": copy.deepcopy(base), "b": m}
+            idx += 1
+        # histories: compare, edit one header aspect of one object in place, compare again, edit back, compare
+        for _ in range(4):
+            ha, hb, first, edits = gen_history(rng, base)
+            yield {"seed": seed, "index": idx, "mutation": "history:" + edits[0]["op"], "expected": first,
+                   "a": ha, "b": hb, "edits": edits}
             idx += 1
         # non-Table arguments carrying the table's own content: its backing TableDataFrame, copies, wrappers, ducks
         for nt in ["own_df", "twin_df", "df_copy"] + rng.sample(NT_CARRIERS[3:], 3):
@@ -594,7 +667,9 @@ def run(tier, seed, model_ok, translator, search=False):
     out = Outcome()
     out.rule = ("pairs (t, mutate t) for every single-aspect mutation of a random table (0-6 rows, 0-4 columns of "
                 "kinds int/float/bool/str/object/datetime/Int64/Float64/boolean/string with NaN/None/NaT/pd.NA), "
-                "unrelated random pairs from a small and a large space, non-default indexes, subclass instances and "
+                "unrelated random pairs from a small and a large space, non-default indexes, histories (compare, edit name / "
+                "destinations / one unit in place through metadata, Column.unit and Table.units, compare the same "
+                "objects again, edit back, compare), subclass instances and "
                 "non-Table arguments (None, scalars, containers, plain DataFrame, and objects carrying the table's own "
                 "content: its backing TableDataFrame, a twin's, copies, Series, (name, df) tuples/lists, duck-typed "
                 "objects, repr, column proxies); equals evaluated in both orders and on (a, a). Non-trivial: other is a Table "
